@@ -3,7 +3,7 @@
 use crate::engine::*;
 use crate::ensure;
 use crate::items::*;
-use crate::props::c03::{gen_layer, with_stack, Layer, Top};
+use crate::props::c03::{apply_top, gen_layer, gen_layer_near, gen_op_near, gen_parent_box, with_stack, Layer, Model, Op, Top};
 use crate::targets::*;
 use embedded_graphics::geometry::{Point, Size};
 use embedded_graphics::pixelcolor::{Rgb565, Rgb888};
@@ -13,14 +13,15 @@ pub fn prop() -> Prop {
     Prop {
         id: "C04",
         level: "fault_enumeration",
-        rule: "proptest tapes decoding to a drawable (8 styled primitives incl. dotted strokes, polylines with translate, images and nested sub-images, multi-line text with decorations; sizes <= 24) drawn through an adapter stack of depth 0..=2 from {clipped, cropped, translated} plus, for half of the cases, a color_converted layer (Rgb565 drawable on an Rgb888 target), onto a logging fault-injecting target of both flavours (native fills / draw_iter only). Fault enumeration: the fault-free run records the call log L (n calls on the underlying target); then for EVERY k < n the run is repeated with the k-th call failing with the unique error value E(k) after consuming its whole argument, and once more with the failing call pulling only j items of its iterator (j from the tape). Oracle: draw returns exactly Err(E(k)); the log has exactly k+1 entries; entries 0..k are identical (method, area, colour/pixel content) to L[0..=k] (a prefix of L[k] when cut after j items); no call is made after the failure. Non-trivial: n >= 3 (so a failure strictly inside the run exists). Evaluations count drawables; the counter fault_runs counts the enumerated failing runs.",
+        rule: "proptest tapes decoding to a drawable (8 styled primitives incl. dotted strokes, polylines with translate, images and nested sub-images, multi-line text with decorations; sizes <= 24) drawn through an adapter stack of depth 0..=2 from {clipped, cropped, translated} plus, for half of the cases, a color_converted layer (Rgb565 drawable on an Rgb888 target), onto a logging fault-injecting target of both flavours (native fills / draw_iter only). Fault enumeration: the fault-free run records the call log L (n calls on the underlying target); then for EVERY k < n the run is repeated with the k-th call failing with the unique error value E(k) after consuming its whole argument, and once more with the failing call pulling only j items of its iterator (j from the tape). Oracle: draw returns exactly Err(E(k)); the log has exactly k+1 entries; entries 0..k are identical (method, area, colour/pixel content) to L[0..=k] (a prefix of L[k] when cut after j items); no call is made after the failure. Non-trivial: n >= 3 (so a failure strictly inside the run exists). Sub-check adapter_operations applies the same fault enumeration to single raw operations (draw_iter, fill_contiguous with full/short/long streams, fill_solid, clear) issued at the top of adapter stacks of depth 1..=3 over small parents, where a third of the layer areas and operation areas coincide exactly with the bounding box below them (whole-target fills, crops and clips covering everything); non-trivial there: n >= 2 or a covering area. Evaluations count drawables; the counter fault_runs counts the enumerated failing runs.",
         assumptions: vec![
             "the set of drawables is generated; the set of fault points per drawable is enumerated completely",
             "a failing call that consumes its whole iterator and one that stops after j items are both tried",
         ],
         subs: vec![
-            Sub::tape("native_target", 460, 40_000, 2_000_000, |d, cx| run(d, cx, true)),
-            Sub::tape("draw_iter_only_target", 460, 40_000, 2_000_000, |d, cx| run(d, cx, false)),
+            Sub::tape("native_target", 460, 80_000, 4_000_000, |d, cx| run(d, cx, true)),
+            Sub::tape("draw_iter_only_target", 460, 80_000, 4_000_000, |d, cx| run(d, cx, false)),
+            Sub::tape("adapter_operations", 120, 60_000, 3_000_000, adapter_operations),
         ],
     }
 }
@@ -52,15 +53,18 @@ struct Outcome {
 }
 
 fn draw_through(item: &AnyItem, stack: &[Layer], parent_box: Rectangle, native: bool, fail_at: Option<usize>, pull: usize) -> Outcome {
+    through(stack, parent_box, native, fail_at, pull, &mut |top: Top| match (top, item) {
+        (Top::C888(t), AnyItem::C888(it)) => it.draw(&mut Dyn(t)).map(|_| ()),
+        (Top::C565(t), AnyItem::C565(it)) => it.draw(&mut Dyn(t)).map(|_| ()),
+        _ => unreachable!("colour type of the stack top and of the drawable differ"),
+    })
+}
+
+/// Runs `act` on the top of the adapter stack over a logging, fault-injecting parent.
+fn through(stack: &[Layer], parent_box: Rectangle, native: bool, fail_at: Option<usize>, pull: usize, act: &mut dyn FnMut(Top) -> Result<(), Fault>) -> Outcome {
     let mut boxes = vec![];
     let mut result: Result<(), Fault> = Ok(());
-    let mut f = |top: Top| {
-        result = match (top, item) {
-            (Top::C888(t), AnyItem::C888(it)) => it.draw(&mut Dyn(t)).map(|_| ()),
-            (Top::C565(t), AnyItem::C565(it)) => it.draw(&mut Dyn(t)).map(|_| ()),
-            _ => unreachable!("colour type of the stack top and of the drawable differ"),
-        }
-    };
+    let mut f = |top: Top| result = act(top);
     if native {
         let mut t = NativeT::<Rgb888>::with_box(parent_box);
         t.0.fail_at = fail_at;
@@ -74,6 +78,33 @@ fn draw_through(item: &AnyItem, stack: &[Layer], parent_box: Rectangle, native: 
         with_stack::<Rgb888>(&mut t, stack, &mut boxes, &mut f);
         Outcome { result, calls: t.0.calls, after: t.0.calls_after_failure }
     }
+}
+
+/// The fault enumeration: every call index of the fault-free run, each with a failing call that
+/// consumes its whole argument and one that stops after `j` items. Returns (n, runs).
+fn enumerate_faults(k: &str, j: usize, run: &mut dyn FnMut(Option<usize>, usize) -> Outcome) -> Result<(usize, u64), Fail> {
+    let free = run(None, usize::MAX);
+    free.result.map_err(|e| Fail { sig: format!("{}:fault_free_error", k), detail: format!("{:?}", e) })?;
+    let n = free.calls.len();
+    let mut runs = 0u64;
+    for f in 0..n {
+        for (pull, cut) in [(usize::MAX, false), (j, true)] {
+            runs += 1;
+            let o = run(Some(f), pull);
+            ensure!(o.result == Err(Fault(f)), format!("{}:error_not_returned", k), "call {} of {} fails with E({}) but the operation returned {:?}", f, n, f, o.result);
+            ensure!(o.after == 0, format!("{}:calls_after_failure", k), "call {} of {} failed but {} further call(s) were made on the target", f, n, o.after);
+            ensure!(o.calls.len() == f + 1, format!("{}:call_count", k), "call {} of {} failed; the target logged {} calls, expected {}", f, n, o.calls.len(), f + 1);
+            for i in 0..f {
+                ensure!(o.calls[i] == free.calls[i], format!("{}:prefix_differs", k), "call {} before the failure at {} differs from the fault-free run: {:?} vs {:?}", i, f, o.calls[i], free.calls[i]);
+            }
+            if cut {
+                ensure!(is_prefix(&o.calls[f], &free.calls[f], j), format!("{}:failing_call_differs", k), "the failing call {} (cut after {} items) is not a prefix of the fault-free call: {:?} vs {:?}", f, j, o.calls[f], free.calls[f]);
+            } else {
+                ensure!(o.calls[f] == free.calls[f], format!("{}:failing_call_differs", k), "the failing call {} differs from the fault-free run: {:?} vs {:?}", f, o.calls[f], free.calls[f]);
+            }
+        }
+    }
+    Ok((n, runs))
 }
 
 fn is_prefix(cut: &Call<Rgb888>, full: &Call<Rgb888>, j: usize) -> bool {
@@ -111,29 +142,63 @@ fn run(d: &mut Dec, cx: &mut Cx, native: bool) -> Res {
     cx.class(KIND_NAMES[kind as usize]);
     let k = item.kind();
 
-    let free = draw_through(&item, &stack, parent_box, native, None, usize::MAX);
-    free.result.map_err(|e| Fail { sig: format!("{}:fault_free_error", k), detail: format!("{:?}", e) })?;
-    let n = free.calls.len();
-    let mut runs = 0u64;
-    for f in 0..n {
-        for (pull, cut) in [(usize::MAX, false), (j, true)] {
-            runs += 1;
-            let o = draw_through(&item, &stack, parent_box, native, Some(f), pull);
-            ensure!(o.result == Err(Fault(f)), format!("{}:error_not_returned", k), "call {} of {} fails with E({}) but draw returned {:?}", f, n, f, o.result);
-            ensure!(o.after == 0, format!("{}:calls_after_failure", k), "call {} of {} failed but {} further call(s) were made on the target", f, n, o.after);
-            ensure!(o.calls.len() == f + 1, format!("{}:call_count", k), "call {} of {} failed; the target logged {} calls, expected {}", f, n, o.calls.len(), f + 1);
-            for i in 0..f {
-                ensure!(o.calls[i] == free.calls[i], format!("{}:prefix_differs", k), "call {} before the failure at {} differs from the fault-free run: {:?} vs {:?}", i, f, o.calls[i], free.calls[i]);
-            }
-            if cut {
-                ensure!(is_prefix(&o.calls[f], &free.calls[f], j), format!("{}:failing_call_differs", k), "the failing call {} (cut after {} items) is not a prefix of the fault-free call: {:?} vs {:?}", f, j, o.calls[f], free.calls[f]);
-            } else {
-                ensure!(o.calls[f] == free.calls[f], format!("{}:failing_call_differs", k), "the failing call {} differs from the fault-free run: {:?} vs {:?}", f, o.calls[f], free.calls[f]);
-            }
-        }
-    }
+    let (n, runs) = enumerate_faults(k, j, &mut |fail_at, pull| draw_through(&item, &stack, parent_box, native, fail_at, pull))?;
     cx.count("fault_runs", runs);
     cx.count("target_calls_fault_free", n as u64);
     cx.nontrivial(n >= 3);
+    Ok(())
+}
+
+
+/// Single operations at the top of adapter stacks, with layer and operation areas that often
+/// coincide exactly with the bounding box below them (the case in which an adapter may forward a
+/// fill as `clear` or a crop / clip as the whole parent).
+fn adapter_operations(d: &mut Dec, cx: &mut Cx) -> Res {
+    let native = d.bool();
+    let parent_box = gen_parent_box(d);
+    let depth = d.u(1, 3);
+    let mut stack: Vec<Layer> = vec![];
+    let mut top_box = parent_box;
+    let mut covering = false;
+    for _ in 0..depth {
+        let l = match d.u(0, 5) {
+            0 => {
+                covering = true;
+                Layer::Clipped(top_box)
+            }
+            1 => {
+                covering = true;
+                Layer::Cropped(top_box)
+            }
+            _ => gen_layer_near(d, &top_box),
+        };
+        stack.push(l);
+        top_box = Model::new(parent_box, &stack).layers.last().map(|l| l.bbox_exact).unwrap_or(parent_box);
+    }
+    let full = (top_box.size.width * top_box.size.height) as usize;
+    let op = match d.u(0, 8) {
+        0 => {
+            covering = true;
+            Op::FillSolid(top_box, 7)
+        }
+        1 => {
+            covering = true;
+            Op::FillContiguous(top_box, (0..full as u32).map(|k| 9 + k).collect())
+        }
+        2 => Op::Clear(5),
+        _ => gen_op_near(d, 11, &top_box),
+    };
+    let j = d.u(0, 6) as usize;
+    cx.describe(|| format!("{} parent box {:?}; stack (innermost first) {:?}; operation {:?}; stream cut after {} items", if native { "native-fill" } else { "draw_iter-only" }, parent_box, stack, op, j));
+    cx.class(match &op {
+        Op::DrawIter(_) => "draw_iter",
+        Op::FillContiguous(..) => "fill_contiguous",
+        Op::FillSolid(..) => "fill_solid",
+        Op::Clear(_) => "clear",
+    });
+    let (n, runs) = enumerate_faults("adapter", j, &mut |fail_at, pull| through(&stack, parent_box, native, fail_at, pull, &mut |top: Top| apply_top(top, &op)))?;
+    cx.count("fault_runs", runs);
+    cx.count("target_calls_fault_free", n as u64);
+    cx.nontrivial(n >= 2 || (covering && n >= 1));
     Ok(())
 }
